@@ -97,13 +97,13 @@ type faultSpec struct {
 
 func c09Faults() []faultSpec {
 	var fs []faultSpec
-	for _, k := range []sim.FaultKind{sim.FaultError, sim.FaultInvalid, sim.FaultSyncing, sim.FaultAccepted, sim.FaultNoPayloadID, sim.FaultStall} {
+	for _, k := range []sim.FaultKind{sim.FaultError, sim.FaultInvalid, sim.FaultSyncing, sim.FaultAccepted, sim.FaultNoPayloadID, sim.FaultStall, sim.FaultOutage} {
 		fs = append(fs, faultSpec{0, k, "prepare.forkchoiceUpdated", "prepare-fails"})
 	}
-	for _, k := range []sim.FaultKind{sim.FaultError, sim.FaultStall} {
+	for _, k := range []sim.FaultKind{sim.FaultError, sim.FaultStall, sim.FaultOutage} {
 		fs = append(fs, faultSpec{1, k, "prepare.getPayload", "prepare-fails"})
 	}
-	for _, k := range []sim.FaultKind{sim.FaultError, sim.FaultInvalid, sim.FaultSyncing, sim.FaultAccepted} {
+	for _, k := range []sim.FaultKind{sim.FaultError, sim.FaultInvalid, sim.FaultSyncing, sim.FaultAccepted, sim.FaultOutage} {
 		fs = append(fs, faultSpec{2, k, "process.newPayload", "process-rejects"})
 	}
 	for _, c := range []int{3, 4} {
@@ -111,6 +111,9 @@ func c09Faults() []faultSpec {
 		if c == 4 {
 			ph = "finalize.forkchoiceUpdated"
 		}
+		// an engine that goes away without answering (connection cut, nothing listening for 0.9 s) is an
+		// engine that errors: the block must not be committed
+		fs = append(fs, faultSpec{c, sim.FaultOutage, ph, "finalize-errors"})
 		fs = append(fs, faultSpec{c, sim.FaultError, ph, "finalize-errors"}, faultSpec{c, sim.FaultInvalid, ph, "finalize-errors"},
 			faultSpec{c, sim.FaultSyncing, ph, "tolerated"}, faultSpec{c, sim.FaultAccepted, ph, "tolerated"})
 	}
@@ -154,7 +157,7 @@ func c09FaultPairs(r *mc.Run, w *enga.World, path []enga.ABlock, b enga.ABlock) 
 	var pairs []pair
 	for _, f1 := range faults {
 		for _, f2 := range faults {
-			if f1.Call < f2.Call && f1.Kind != sim.FaultStall && f2.Kind != sim.FaultStall {
+			if f1.Call < f2.Call && f1.Kind != sim.FaultStall && f2.Kind != sim.FaultStall && f1.Kind != sim.FaultOutage && f2.Kind != sim.FaultOutage {
 				pairs = append(pairs, pair{f1, f2})
 			}
 		}
@@ -213,10 +216,36 @@ func c09FaultEnum(r *mc.Run, w *enga.World, path []enga.ABlock, b enga.ABlock) {
 		f := faults[i]
 		x, err := w.Fork()
 		must(err)
-		defer x.Close()
+		hung := false
+		defer func() {
+			if !hung {
+				x.Close()
+			}
+		}()
 		before := x.N.DumpStores(x.N.Ctx()).Hash()
 		x.N.EL.SetFaults(map[int]sim.FaultKind{f.Call: f.Kind})
-		res := x.Run(b)
+		var res *enga.Result
+		if f.Kind == sim.FaultOutage {
+			// go-ethereum's RPC client can lose a request that was written just before the connection
+			// died (the read error is handled before the send is acknowledged, and that one request is
+			// exempted from cancellation): the call then waits for as long as its context lives, and
+			// FinalizeBlock / ProcessProposal pass a context without deadline. A node in that state
+			// commits nothing and has to be restarted by its operator; for the property that is "not
+			// committed". The harness cannot interrupt the call: it abandons that instance and counts it.
+			ch := make(chan *enga.Result, 1)
+			go func() { defer mc.Guard(); ch <- x.Run(b) }()
+			select {
+			case res = <-ch:
+			case <-time.After(25 * time.Second):
+				hung = true
+				r.Outcome("engine-call-never-returns-after-connection-loss:" + f.Phase)
+				r.Transitions.Add(1)
+				r.Validated.Add(1)
+				return
+			}
+		} else {
+			res = x.Run(b)
+		}
 		r.Transitions.Add(1)
 		r.Validated.Add(1)
 		r.Outcome(f.Expect)
@@ -240,6 +269,7 @@ func c09FaultEnum(r *mc.Run, w *enga.World, path []enga.ABlock, b enga.ABlock) {
 				viol("state-persisted-from-aborted-block", "store dump changed", f)
 			}
 			// next fault-free round: same system transactions, same final state as the fault-free replica
+			x.N.EL.WaitUp()
 			x.N.EL.SetFaults(nil)
 			rr := x.N.RunBlock(res.SimBlock)
 			if rr.Err != nil || rr.Finalize == nil {
@@ -265,6 +295,7 @@ func c09FaultEnum(r *mc.Run, w *enga.World, path []enga.ABlock, b enga.ABlock) {
 				return
 			}
 			// CometBFT stops on a FinalizeBlock error: restart on the same DB, clear the fault, same block again
+			x.N.EL.WaitUp()
 			must(x.N.Restart())
 			if after := x.N.DumpStores(x.N.Ctx()).Hash(); after != before {
 				viol("state-persisted-from-aborted-block", "store dump after restart differs", f)
@@ -490,7 +521,7 @@ func runC09(r *mc.Run) {
 	}
 	r.Bounds["depth_blocks"] = depth
 	r.Bounds["fault_enumeration_history_depth"] = faultDepth
-	r.Rule = "tree search over block histories of the real application (real PrepareProposal/ProcessProposal/FinalizeBlock/Commit, fake execution layer over IPC) with the head monitor on every finalised block; at every node up to the fault depth, for every menu block, every placement of one engine fault (error, INVALID, SYNCING, ACCEPTED, missing payload id, stall past the 1.2 s deadline) on each of the 5 engine calls; at every node one level deeper, stale proposals put to the same application instance that verified them (the committed payload again; a sibling accepted in another round but not decided, verified before / after the decided one): rejected, message fails when finalised anyway, head and beacon root unmoved; and 9 payloads that differ from a perfect child only in their blob-gas fields (incl. pairs whose 64-bit sum wraps to zero): with blob gas used the message fails and the head stays, with an excess only the block is applied like any honest child (the engine, which recomputes the hash from what it is shown, must agree); aborted blocks are retried (after a restart when FinalizeBlock failed) and compared with a fault-free replica"
+	r.Rule = "tree search over block histories of the real application (real PrepareProposal/ProcessProposal/FinalizeBlock/Commit, fake execution layer over IPC) with the head monitor on every finalised block; at every node up to the fault depth, for every menu block, every placement of one engine fault (error, INVALID, SYNCING, ACCEPTED, missing payload id, stall past the 1.2 s deadline, outage: the connection is cut without an answer and nothing listens for 0.9 s) on each of the 5 engine calls; at every node one level deeper, stale proposals put to the same application instance that verified them (the committed payload again; a sibling accepted in another round but not decided, verified before / after the decided one): rejected, message fails when finalised anyway, head and beacon root unmoved; and 9 payloads that differ from a perfect child only in their blob-gas fields (incl. pairs whose 64-bit sum wraps to zero): with blob gas used the message fails and the head stays, with an excess only the block is applied like any honest child (the engine, which recomputes the hash from what it is shown, must agree); aborted blocks are retried (after a restart when FinalizeBlock failed) and compared with a fault-free replica"
 	r.Assumptions = []string{"single validator = proposer of every block", "ELSim defines the well-behaved engine", "pairs of faults are explored from the initial state in the thorough tier only"}
 	var explore func(r *mc.Run, only []enga.ABlock)
 	explore = func(r *mc.Run, only []enga.ABlock) {
